@@ -3,6 +3,9 @@ package main
 import (
 	"encoding/binary"
 	"fmt"
+	"strings"
+
+	"github.com/netflix/rend/handlers/memcached/chunked"
 	"math/rand"
 	"sort"
 	"time"
@@ -156,7 +159,7 @@ func checkC09(tier, replay string) int {
 				for i := 0; i < nseq; i++ {
 					keys := keyAlphabet(cfg.L1Kind)[:3]
 					p.ResetStores()
-					o := genOpts{Binary: binary, Keys: keys, MinLen: 6, MaxLen: 20, TTLs: ttlClasses, T0: p.L1.T0(),
+					o := genOpts{Binary: binary, Keys: keys, MinLen: 6, MaxLen: 20, TTLs: ttlClassesFar, T0: p.L1.T0(),
 						AllowGat: true, AllowMulti: true, Ports: pm.Ports, ValueLens: []int{0, 10, 1500, 2500}, Ops: ops}
 					cmds := g.sequence(o)
 					// re-anchor absolute TTLs on the clock origin runSeq will set (ResetStores inside runSeq)
@@ -213,6 +216,7 @@ func checkC09(tier, replay string) int {
 			}
 		}
 	})
+	c09RealTime(run)
 	run.Floor("deadline_comparisons", 2000)
 	return run.Finish()
 }
@@ -349,4 +353,80 @@ func c09ReadBack(p *harness.Proxy, binary bool, cmds []wire.Cmd, keys []string, 
 		}
 	}
 	return "", nil
+}
+
+// c09RealTime covers what a standing virtual clock cannot: the chunked handler re-inserts a
+// value on append / prepend with an expiry derived from ITS clock, so real time has to pass
+// between the set and the append to tell "keeps the expiry" from "restarts the TTL". All
+// scenarios share one 3 s sleep; the fake backend follows the real clock here.
+func c09RealTime(run *evid.Run) {
+	type sc struct {
+		name string
+		op   string
+		ttl  uint32 // relative TTL of the initial set (0 = use touchTTL after a set without TTL)
+		then string // "" | "touch" | "gat": a TTL change before the sleep
+		ttl2 uint32
+	}
+	scs := []sc{
+		{"set-append", "append", 1000, "", 0}, {"set-prepend", "prepend", 5000, "", 0},
+		{"set-touch-append", "append", 1000, "touch", 9000}, {"set-gat-prepend", "prepend", 9000, "gat", 2000},
+		{"set-append-multichunk", "append", 3000, "", 0},
+	}
+	type inst struct {
+		sc   sc
+		st   *fakemc.Store
+		h    chunked.Handler
+		want uint32
+		key  string
+	}
+	var insts []*inst
+	for i, s := range scs {
+		st := fakemc.NewStore("L1")
+		st.SetRealClock(true)
+		in := &inst{sc: s, st: st, h: chunked.NewHandler(st.Pipe()), key: fmt.Sprintf("rt%d", i)}
+		vlen := 50
+		if strings.Contains(s.name, "multichunk") {
+			vlen = 2500
+		}
+		now := uint32(time.Now().Unix())
+		r := handlerExec(in.h, wire.Cmd{Op: "set", Key: in.key, Value: makeValue(uint32(900+i), vlen), Flags: 7, TTL: s.ttl}, 0)
+		in.want = now + s.ttl
+		if s.then != "" {
+			now = uint32(time.Now().Unix())
+			r = handlerExec(in.h, wire.Cmd{Op: s.then, Key: in.key, TTL: s.ttl2, Opaque: 3}, 0)
+			in.want = now + s.ttl2
+		}
+		if r.Class != "ok" {
+			run.Inconclusive("real-time scenario " + s.name + ": set-up failed: " + r.Class)
+			continue
+		}
+		insts = append(insts, in)
+	}
+	time.Sleep(3 * time.Second)
+	for _, in := range insts {
+		r := handlerExec(in.h, wire.Cmd{Op: in.sc.op, Key: in.key, Value: []byte("-tail")}, 0)
+		run.Eval(1)
+		run.Count("real_time_scenarios", 1)
+		run.Distinct("realtime|" + in.sc.name)
+		if r.Class != "ok" {
+			run.Violation("chunked|real-time|"+in.sc.name+"|"+in.sc.op+" failed: "+classKind(r.Class), map[string]interface{}{"scenario": in.sc})
+			continue
+		}
+		for bk, e := range in.st.Snapshot() {
+			if derivedIndex(in.key, bk) == -2 {
+				continue
+			}
+			diff := int64(e.Deadline) - int64(in.want)
+			if diff < -2 || diff > 2 {
+				kind := "later"
+				if diff < 0 {
+					kind = "earlier"
+				}
+				run.Violation(fmt.Sprintf("chunked|real-time|%s|after 3 s of real time %s moves the expiry %s than last requested", in.sc.name, in.sc.op, kind),
+					map[string]interface{}{"scenario": in.sc, "backend_entry": bk, "deadline": e.Deadline, "expected": in.want, "difference_s": diff})
+				break
+			}
+		}
+		in.h.Close()
+	}
 }
